@@ -93,6 +93,8 @@ func variant(s *source, style string, bidx int) (src []byte, off int, ok bool) {
 	switch style {
 	case "rich", "ownrich", "indrich":
 		return insertAt(s.src, off, richText(style, s.id, bidx)), off, true
+	case "uline", "uhash", "ublk", "uown", "ucrlf":
+		return insertAt(s.src, off, uniText(style, s.id, bidx)), off, true
 	}
 	return insertAt(s.src, off, styleText(style, bidx)), off, true
 }
@@ -108,6 +110,9 @@ func srcCase(s *source, src []byte) string {
 // failureKey: stable classifier = what fails + comment style class + innermost node kind +
 // position class (tokens before/after the inserted comment).
 func failureKey(v verdict, j job, s *source, src []byte, off int) string {
+	if v.what == "invalid-utf8" {
+		return "output-invalid-utf8:" + styleClass(j.style)
+	}
 	if v.what == "panic" || v.what == "hang" || v.what == "error" || v.what == "outscan" {
 		d := v.detail
 		if v.what == "panic" && (strings.Contains(d, "slice bounds out of range [2:1]") || strings.Contains(d, "index out of range [1] with length 1")) {
@@ -155,6 +160,8 @@ func styleClass(st string) string {
 		return "multiline-block"
 	case "rich", "ownrich", "indrich":
 		return "rich-block"
+	case "uline", "uhash", "ublk", "uown", "ucrlf":
+		return "unicode-text"
 	case "line", "hash", "hash1":
 		return "line"
 	default:
@@ -183,6 +190,27 @@ func runJob(j job) (res result) {
 	}
 	v := checkComments(j.s, src, fmtTimeout)
 	res.counts = append(res.counts, "variant_valid_"+j.style)
+	if v.corr != "" {
+		rc := res.caseLine
+		if len(src) <= 6000 {
+			rc = srcCase(j.s, src)
+		}
+		res.oracle = append(res.oracle, [3]string{"corr:lexer-vs-scanner", rc, v.corr + " @" + j.s.id + " style=" + j.style + " boundary=" + strconv.Itoa(j.bidx)})
+	}
+	if j.style == "asis" && strings.HasSuffix(j.s.fname, ".go") {
+		// validate the harness' lexer against the Go standard library scanner
+		if gc, ok := goScanComments(src); ok {
+			mine := lexComments(src)
+			same := len(gc) == len(mine)
+			for i := 0; same && i < len(gc); i++ {
+				same = normComment(gc[i]) == normComment(mine[i].lit)
+			}
+			res.counts = append(res.counts, "lexer_vs_goscanner_files")
+			if !same {
+				res.oracle = append(res.oracle, [3]string{"corr:lexer-vs-goscanner", res.caseLine, fmt.Sprintf("go/scanner %d comments, lexer %d @%s", len(gc), len(mine), j.s.id)})
+			}
+		}
+	}
 	if v.byDesign != "" && v.ok {
 		res.counts = append(res.counts, "bydesign_"+v.byDesign)
 	}
@@ -394,6 +422,11 @@ func search(f *vh.Flags, o *vh.Out) {
 		jobs = append(jobs, job{s, "shape", -1})
 	}
 	o.Stats["block_comment_shapes"] = len(jobs)
+	us := uniSources()
+	for _, s := range us {
+		jobs = append(jobs, job{s, "shape", -1})
+	}
+	o.Stats["unicode_text_sources"] = len(us)
 	runAll(jobs, o, time.Time{})
 	if atomic.LoadInt32(&hung) != 0 {
 		return
@@ -464,6 +497,8 @@ func search(f *vh.Flags, o *vh.Out) {
 			st := styles[rr.Intn(len(styles))]
 			if rr.Chance(30) {
 				st = richStyles[rr.Intn(len(richStyles))]
+			} else if rr.Chance(25) {
+				st = uniStyles[rr.Intn(len(uniStyles))]
 			}
 			if st == "hash1" && !rr.Chance(10) {
 				st = "hash"
